@@ -7,6 +7,7 @@
   Not modelled: `usize` counter overflow (counters are `Nat`).
 -/
 import DltVerif.Lemmas.Stats
+import DltVerif.Lemmas.StatsVisit
 
 namespace Dlt
 
@@ -152,5 +153,37 @@ theorem C10_merge_any_tree (parts : List (List Statistic)) (t : MergeTree)
 -- non-vacuity: two parts, merged in reverse order below an empty statistics value
 example : (MergeTree.node .new (.node (.part 1) (.part 0))).leaves.Perm (List.range 2) := by
   decide
+
+/-- the scan visits every message of the stream exactly once, in order, with its decoded
+    headers: for a stream that is the concatenation of well-formed messages (all with / all
+    without storage header) the collector is handed exactly `statOf m1, .., statOf mk` -/
+theorem C10_visit (w : Bool) (ms : List Message)
+    (hms : ∀ x ∈ ms, x.wf = true ∧ x.storageHeader.isSome = w) :
+    visit w (ms.map Message.asBytes).flatten = some (ms.map statOf) := by
+  rw [visit_eq]
+  induction ms with
+  | nil => rfl
+  | cons x xs ih =>
+    obtain ⟨hx, hxw⟩ := hms x (List.mem_cons_self ..)
+    obtain ⟨hlen, hdecl⟩ := Message.wf_piece_of x w hx hxw
+    rw [List.map_cons, List.flatten_cons, cut_append_piece w x.asBytes _ hlen hdecl]
+    simp only [visitPieces, statisticOfSlice_asBytes x w hx hxw,
+      ih (fun y hy => hms y (List.mem_cons_of_mem _ hy)), List.map_cons]
+
+/-- for EVERY byte stream the scan is a function of the Spec's cut of the stream alone
+    (no dependence on buffering): each complete piece is decoded once, a bad length or a
+    truncated tail makes the scan fail -/
+theorem C10_visit_cut (w : Bool) (bs : Bytes) : visit w bs = visitPieces w (Spec.cut w bs) :=
+  visit_eq w bs
+
+/-- end to end: the statistics collected from a stream of well-formed messages are the
+    independent tally over the messages' headers -/
+theorem C10_stream_tally (w : Bool) (ms : List Message)
+    (hms : ∀ x ∈ ms, x.wf = true ∧ x.storageHeader.isSome = w) (k : Keying) (id : Bytes) (b : Bucket) :
+    (visit w (ms.map Message.asBytes).flatten).map (fun sts => lookup (mapOf k (collectInfo sts)) id b)
+      = some (tally k (ms.map statOf) id b) := by
+  rw [C10_visit w ms hms]
+  simp only [Option.map_some]
+  rw [(C10_tally (ms.map statOf) k id b).1]
 
 end Dlt
